@@ -113,6 +113,13 @@ def c16(tier, seed):
         J(MEM, "VerifK16bFrame", len=1 if q else 2, models=0, timeout_ms=t),
         J(MEM, "VerifK16bFrame", models=1, timeout_ms=t),
         J(MEM, "VerifK16bAssertionKey", len=2 if q else 3, bar=0, timeout_ms=t),
+        # the memoizing typesystem resolver (real singleflight + key building) asked by two stores at once for the same
+        # model id / for their latest model: each store gets its own model, during the race and afterwards
+        J("pkg/typesystem", "VerifK16cResolverIsolation", mode="id", timeout_ms=t),
+        J("pkg/typesystem", "VerifK16cResolverIsolation", mode="latest", timeout_ms=t),
+        J("pkg/typesystem", "VerifK16cResolverIsolation", mode="latest", sameid=0, timeout_ms=t),
+        # a deleted store is gone from GetStore and from every form of ListStores (ids filter, name filter, paging)
+        J(MEM, "VerifK16dDeletedStore", timeout_ms=t),
     ]
     if os.environ.get("VERIF_EXPLORE"):
         # outside the claim (ids are ULIDs): with ids that may contain '|' the solver finds the collision
@@ -124,7 +131,16 @@ def c16(tier, seed):
 
 def c17(tier, seed):
     q = tier == "quick"
-    return [J(MEM, "VerifK17bModelHistory", n=3, len=2 if q else 3, timeout_ms=120000 if q else 900000)]
+    t = 120000 if q else 900000
+    return [
+        J(MEM, "VerifK17bModelHistory", n=3, len=2 if q else 3, timeout_ms=t),
+        # NewAndValidate accepts the 10 valid and rejects the 34 invalid one-change mutations of a base model
+        # (undefined condition / type / relation in every form of restriction, bad rewrites, tupleset rules, cycles, ...)
+        J("pkg/typesystem", "VerifK17cRejectsInvalid", timeout_ms=t),
+        J("pkg/typesystem", "VerifK17cRejectsInvalid", sym=1, timeout_ms=t),
+        # "resolved to the latest": the model-less lookup of one store is not answered with another store's latest model
+        J("pkg/typesystem", "VerifK16cResolverIsolation", mode="latest", timeout_ms=t),
+    ]
 
 
 def c31(tier, seed):
@@ -173,15 +189,15 @@ SPEC = {
     },
     "C16": {
         "jobs": c16,
-        "level_text": "bounded symbolic execution (K16b): for two stores with arbitrary distinct ids that hold a tuple with the same key, a model with the same id and assertions for that model id, every MemoryBackend mutator (Write, WriteAuthorizationModel, WriteAssertions, CreateStore, DeleteStore) called for store A leaves every read of store B (ReadPage, ReadChanges, FindLatest/ReadAuthorizationModel(s), ReadAssertions, GetStore, ListStores) unchanged - same objects - while it does take effect on A; after DeleteStore, GetStore reports ErrNotFound and ListStores omits the store; the assertion table key fmt.Sprintf(\"%s|%s\", store, model) is injective for ids without '|' (ULID alphabet). With ids that may contain '|' the solver finds the collision (store \"|\", model \"\") vs (store \"\", model \"|\"), replayed natively: outside the claim, run with VERIF_EXPLORE=1",
+        "level_text": "bounded symbolic execution (K16b): for two stores with arbitrary distinct ids that hold a tuple with the same key, a model with the same id and assertions for that model id, every MemoryBackend mutator (Write, WriteAuthorizationModel, WriteAssertions, CreateStore, DeleteStore) called for store A leaves every read of store B (ReadPage, ReadChanges, FindLatest/ReadAuthorizationModel(s), ReadAssertions, GetStore, ListStores) unchanged - same objects - while it does take effect on A; after DeleteStore, GetStore reports ErrNotFound and ListStores omits the store; the assertion table key fmt.Sprintf(\"%s|%s\", store, model) is injective for ids without '|' (ULID alphabet). With ids that may contain '|' the solver finds the collision (store \"|\", model \"\") vs (store \"\", model \"|\"), replayed natively: outside the claim, run with VERIF_EXPLORE=1; (K16c) the real MemoizedTypesystemResolverFunc (singleflight, cache keys; only the LRU container is a table) asked by two stores concurrently - one store's datastore read is held until the other store's request has been issued - for the same model id and for their latest model: each store gets its own model during the race and on later lookups; (K16d) a deleted store is absent from GetStore and from ListStores in every form (unfiltered, by name, by ids, paged)",
         "level_note": "bounds: store ids = arbitrary byte strings <= 1 (quick) / 2 bytes (empty and '|' included) for Write, WriteAssertions, CreateStore, DeleteStore; the model mutator and model readers run with the concrete ids A and B (engine limitation: range over a map selected by a symbolic key); key injectivity: four arbitrary strings <= 2 / 3 bytes; cache keys (K16a) are a separate check. " + _TRUST,
         "assumptions": ["store and model ids are ULIDs (no '|') for the injectivity claim", "concrete instants for Writes in the frame harness (ulids concrete)"],
         "outside": ["SQL WHERE store = ?", "K16a cache-key constructors (separate harnesses)", "data left behind by DeleteStore for a re-created id (ids are never reused)"],
     },
     "C17": {
         "jobs": c17,
-        "level_text": "bounded symbolic execution (K17b): over every sequence of <= 3 WriteAuthorizationModel calls into two stores (store of each write forked, model ids symbolic, pairwise distinct, models with or without type definitions): FindLatestAuthorizationModel is the last model written to that store (ErrNotFound for a store without models), ReadAuthorizationModel returns every earlier model unchanged (the very object, fields intact) in its own store only and ErrNotFound for models without types or foreign ids, ReadAuthorizationModels lists exactly the store's models in descending id order",
-        "level_note": "bounds: <= 3 writes, 2 stores, ids = arbitrary non-empty byte strings <= 2 (quick) / 3 bytes; K17a (command layer) and K17c (resolver caches) are separate checks. " + _TRUST,
+        "level_text": "bounded symbolic execution (K17b): over every sequence of <= 3 WriteAuthorizationModel calls into two stores (store of each write forked, model ids symbolic, pairwise distinct, models with or without type definitions): FindLatestAuthorizationModel is the last model written to that store (ErrNotFound for a store without models), ReadAuthorizationModel returns every earlier model unchanged (the very object, fields intact) in its own store only and ErrNotFound for models without types or foreign ids, ReadAuthorizationModels lists exactly the store's models in descending id order; (K17c) typesystem.NewAndValidate on 44 one-change mutations of a valid base model: the 10 valid ones are accepted, the 34 invalid ones (condition / type / relation undefined in a plain, wildcard or userset restriction, bad computed / tuple-to-userset rewrites, tupleset rules, no entry point, cycles, reserved names, duplicate types, schema 1.0, key/name mismatch of a condition) are rejected with the documented error, with the undefined condition name symbolic in a second job; the model-less ('latest') lookup of the memoizing resolver is per store (K16c)",
+        "level_note": "bounds: <= 3 writes, 2 stores, ids = arbitrary non-empty byte strings <= 2 (quick) / 3 bytes; K17c: CEL compilation stubbed (real natively). " + _TRUST,
         "assumptions": ["model ids within one history are pairwise distinct and non-empty (ULIDs)"],
         "outside": ["SQL", "validation (K17a) and typesystem resolution/caching (K17c)", "ReadAuthorizationModel with an empty id (memory returns the latest model)"],
     },
